@@ -12,7 +12,9 @@ THEOREMS = ["C10_catch_once", "C10_uncaught_stops", "C10_defers_rev_once", "C10_
             "C10_panic_defers_rev_once", "C10_recover_resumes_caller", "C10_old_refuted",
             "C10_failing_defer_skips_rest_old_refuted", "C10_defers_statement_holds",
             "C10_return_leaves_frame_clean", "C10_return_marker_old_refuted",
-            "C10_step_preserves_shape", "C10_catch_preserves_shape", "C10_frame_pop_shape"]
+            "C10_step_preserves_shape", "C10_catch_preserves_shape", "C10_frame_pop_shape",
+            "C10_exec_preserves_shape", "C10_dispatch_preserves_shape", "C10_run_u_is_run", "C10_run_preserves_shape",
+            "C10_return_preserves_shape", "C10_unwind_panic_preserves_shape"]
 META = {
     "group": "VM",
     "technique": "Coq proofs over an executable model of the bytecode interpreter's try/catch, defer, panic/recover and "
@@ -38,10 +40,15 @@ META = {
             "arithmetic, load/store, scopes, branches, print, markers, Try/TryPop, Defer, Recover -- plus Call and "
             "RunDefers), C10_catch_preserves_shape (the context a catch block starts in), C10_frame_pop_shape "
             "(callFramePop inside a function). "
-            "partial: shape preservation is not yet proved for Return / panic unwinding as whole instructions (only their "
-            "callFramePop core), for Dup, and for instructions that FAIL after popping (a pop from an empty local stack "
-            "removes a call frame in the VM too), and that compiled code keeps a try marker below every live try entry is "
-            "still observed by the correspondence, not proved; selective catch lists, named/multiple results, goroutines and the "
+            "Over whole runs (coq/VM/Shape2.v): C10_exec_preserves_shape (EVERY instruction of the model, completing or "
+            "failing, Return in all operand forms, Dup, entry instructions), C10_dispatch_preserves_shape (instruction + "
+            "catch redirection + panic unwinding), C10_run_preserves_shape (the context any run ends in -- normally, with "
+            "an error, an unhandled panic or out of fuel -- is well shaped) hold for the frame part of the shape (frames "
+            "well formed, frame pointer consistent) unless an instruction pops a call frame off an empty local stack, "
+            "which is flagged (underflow / run_u; the Go VM loses the shape there too). "
+            "partial: the result-register clause of between_instructions is only preserved outside Return(true)-with-"
+            "temporaries (never emitted by the compiler), and that compiled code keeps a try marker below every live try "
+            "entry is still observed by the correspondence, not proved; selective catch lists, named/multiple results, goroutines and the "
             "symbol-table visibility rules are outside the model",
     "note": "Trusted: Coq kernel; hand-written model coq/VM/Model.v tied to the code by the per-run correspondence; "
             "harness/C10 (dumper + in-package compile/run), lib/vm_util.py (translator dump->Coq, generator, reference).",
